@@ -425,3 +425,126 @@ def rule_axis_by_label(ctx):
     r.floor(n_lab, 2, "label-derived axis uses on tensor data")
     r.need_controls(1)
     return r
+
+
+# ------------------------------------------------------------------ positional hand-over
+HANDOVER_EXEMPT = {
+    "tensor_network_sum": "the direct product is built from the operand whose axis order the target shares (a copy of the first network)",
+    "tensor_network_fit_autodiff": "the optimised tensors belong to a copy of the same network (same order of tensors, same axis order)",
+    "_tn1d_fit_sum_sweep_1site": "the new tensor is contracted with the target's own index order",
+    "TensorNetworkInfinite2DFlat._sync_site": "tensors of one site type share one layout by construction",
+}
+
+
+def rule_positional_handover(ctx):
+    r = RuleResult(
+        "axis-by-label[handover]",
+        "`A.modify(data=B.data)` copies B's array into A positionally. On every path to such a hand-over B has been given A's axis "
+        "order — `B.transpose_like_(A)` (possibly at the end of a call chain) after B's last definition, or B is contracted with "
+        "`output_inds=A.inds` — otherwise the result depends on how B happens to store its axes (must-analysis over the "
+        "function's branches; a raising branch is not a path)",
+    )
+    n = 0
+    for g in ctx.prog.all_functions(nested=False):
+        if g.is_alias or isinstance(g.node, ast.Lambda) or not g.module.name.startswith("quimb.tensor"):
+            continue
+        sites = []
+        for c in ast.walk(g.node):
+            if isinstance(c, ast.Call) and isinstance(c.func, ast.Attribute) and c.func.attr == "modify" and isinstance(c.func.value, ast.Name):
+                kws = {k.arg: k.value for k in c.keywords if k.arg}
+                d = kws.get("data")
+                if "inds" in kws or d is None:
+                    continue
+                if isinstance(d, ast.Attribute) and d.attr == "data" and isinstance(d.value, ast.Name) and d.value.id != c.func.value.id:
+                    sites.append((c, c.func.value.id, d.value.id))
+        if not sites:
+            continue
+        verdicts = {}
+
+        def chain_root(call):
+            x = call
+            while isinstance(x, ast.Call) and isinstance(x.func, ast.Attribute):
+                x = x.func.value
+            return x.id if isinstance(x, ast.Name) else None
+
+        def step(st, state):
+            """state: frozenset of (B, A) pairs `B is stored in A's axis order`; returns new state or None (path ends)."""
+            # hand-over sites inside this simple statement are judged against the state *before* it
+            for c, A, B in sites:
+                if any(x is c for x in ast.walk(st)) and not isinstance(st, (ast.If, ast.For, ast.While, ast.With, ast.Try)):
+                    verdicts.setdefault(id(c), []).append((B, A) in state)
+            if isinstance(st, (ast.Return, ast.Raise, ast.Continue, ast.Break)):
+                return None
+            if isinstance(st, ast.If):
+                a = run(st.body, state)
+                b = run(st.orelse, state)
+                if a is None:
+                    return b
+                if b is None:
+                    return a
+                return a & b
+            if isinstance(st, (ast.For, ast.While)):
+                a = run(st.body, state)
+                return state if a is None else (state & a)
+            if isinstance(st, ast.With):
+                return run(st.body, state)
+            if isinstance(st, ast.Try):
+                a = run(st.body, state)
+                outs = [a] + [run(h.body, state) for h in st.handlers]
+                outs = [o for o in outs if o is not None]
+                if not outs:
+                    return None
+                res = outs[0]
+                for o in outs[1:]:
+                    res = res & o
+                return res
+            new = set(state)
+            # definitions kill
+            if isinstance(st, (ast.Assign, ast.AugAssign)):
+                tg = st.targets if isinstance(st, ast.Assign) else [st.target]
+                killed = {y.id for t in tg for y in ast.walk(t) if isinstance(y, ast.Name)}
+                new = {(b_, a_) for (b_, a_) in new if b_ not in killed and a_ not in killed}
+                # B = <...>.contract(..., output_inds=A.inds)  /  B = X.transpose_like(A)
+                if isinstance(st, ast.Assign) and len(tg) == 1 and isinstance(tg[0], ast.Name) and isinstance(st.value, ast.Call):
+                    v = st.value
+                    for kw in v.keywords:
+                        if kw.arg == "output_inds" and isinstance(kw.value, ast.Attribute) and kw.value.attr == "inds" and isinstance(kw.value.value, ast.Name):
+                            new.add((tg[0].id, kw.value.value.id))
+                    if isinstance(v.func, ast.Attribute) and v.func.attr in ("transpose_like", "transpose_like_") and v.args and isinstance(v.args[0], ast.Name):
+                        new.add((tg[0].id, v.args[0].id))
+            # B.transpose_like_(A), also at the end of a chain  B.reindex_(...).transpose_like_(A)
+            for x in ast.walk(st):
+                if isinstance(x, ast.Call) and isinstance(x.func, ast.Attribute) and x.func.attr == "transpose_like_" and x.args and isinstance(x.args[0], ast.Name):
+                    root = chain_root(x)
+                    if root:
+                        new.add((root, x.args[0].id))
+                # another in-place axis permutation of B un-aligns it
+                if isinstance(x, ast.Call) and isinstance(x.func, ast.Attribute) and x.func.attr in ("transpose_", "moveindex_", "fuse_", "unfuse_") and isinstance(x.func.value, ast.Name):
+                    new = {(b_, a_) for (b_, a_) in new if b_ != x.func.value.id and a_ != x.func.value.id}
+            return frozenset(new)
+
+        def run(stmts, state):
+            for st in stmts:
+                state = step(st, state)
+                if state is None:
+                    return None
+            return state
+
+        run(g.node.body, frozenset())
+        for c, A, B in sites:
+            n += 1
+            construct = f"{g.qualname}:{A}<-{B}"
+            vs = verdicts.get(id(c), [])
+            if g.qualname in HANDOVER_EXEMPT:
+                r.exempt(construct, HANDOVER_EXEMPT[g.qualname])
+            elif vs and all(vs):
+                r.ok(construct, sample={"function": g.qualname, "hand-over": src_of(c)[:50], "aligned": f"{B} like {A} on every path"})
+            elif not vs:
+                r.skip(construct, "hand-over inside a nested function / comprehension: not enumerated")
+            else:
+                r.bad(Finding("axis-by-label", g.qualname,
+                              f"`{src_of(c)[:60]}` hands `{B}`'s array to `{A}` positionally, but on some path `{B}` was not given `{A}`'s axis order "
+                              f"(`{B}.transpose_like_({A})`) after its last definition: the result depends on the stored axis order of the operands",
+                              where=f"{g.module.relpath}:{c.lineno}", operand=f"handover:{A}<-{B}"))
+    r.floor(n, 8, "positional hand-over sites")
+    return r
